@@ -81,6 +81,7 @@ class Ctx:
 
     def equal(self, construct, got, exp, where='', what='value', rule=None):
         """Compare two python values (tables); point at the first differing element."""
+        got, exp = _listify(got), _listify(exp)
         if got == exp:
             return self.ok(construct, '', where, rule)
         d = '%s differs from the standard' % what
@@ -212,6 +213,12 @@ class Ctx:
     def sample(self, s):
         if len(self.samples) < 12:
             self.samples.append(s)
+
+
+def _listify(v):
+    if isinstance(v, (list, tuple)):
+        return [_listify(x) for x in v]
+    return v
 
 
 def _short(v):
